@@ -940,6 +940,67 @@ def rule_e14(F):
     return r
 
 
+def rule_e15(F):
+    """`a && b` / `a || b` may skip `b`: whether the expression diverges is decided by the LEFT operand alone.  The checker reports
+    divergence upwards, and a block that diverges is excused from producing its expected type - so if a `return` in the right
+    operand counted, `fn f(c: bool) -> u32 { c && (return 1); }` would type-check although it falls off its end whenever `c` is
+    false.  In the operator group of the short-circuit operators the result of checking the right operand is used for its error
+    only (`?`), its value goes nowhere."""
+    r = RuleResult("C07.E15", "short-circuit operators: the divergence of the right operand (which may be skipped) does not make the expression diverge", floor=1)
+    bb = find_tc(F, "binop")
+    if bb is None or not bb.hir:
+        r.missing("TypeChecker::binop")
+        return r
+    bms = hir.find_match_on(bb.hir["value"], "BinOp::", min_arms=4)
+    if not bms:
+        r.missing("operator match in TypeChecker::binop")
+        return r
+    bld = hir.LocalDefs(bb.hir)
+    epos = [i for i, p_ in enumerate(bb.hir["params"]) if "Meta<ast::Expr>" in (p_.get("ty") or "")]
+    if len(epos) < 2:
+        r.missing("the two operand parameters of TypeChecker::binop")
+        return r
+    right = epos[1]
+    found = 0
+    for arm in bms[-1]["arms"]:
+        alts = set(hir.pat_alternatives(arm["pat"]))
+        if not (alts & {"BinOp::And", "BinOp::Or"}):
+            continue
+        for n, anc in hir.walk_ctx(arm["body"]):
+            if n.get("k") != "mcall" or n.get("m") != "expr" or len(n.get("args") or []) != 3:
+                continue
+            if right not in hir.param_roots(bb.hir, bld, n["args"][2]):
+                continue
+            found += 1
+            # where does the value go?  upwards through the `?` desugaring only, into a statement whose value is dropped
+            used = None
+            child = n
+            for a in reversed(anc):
+                k = a.get("k")
+                if k == "semi":
+                    break
+                if k == "match" and "TryDesugar" in str(a.get("src") or "") or (k == "match" and any(x is child for x in hir.walk(a["e"])) and len(a["arms"]) == 2
+                                                                                   and any("residual" in hir.pat_desc(x["pat"]) or "Break" in hir.pat_desc(x["pat"]) for x in a["arms"])):
+                    child = a
+                    continue
+                if k == "call" and any(x is child for x in hir.walk(a.get("args") or [])) and (hir.call_def(a) or "").endswith("::branch"):
+                    child = a
+                    continue
+                if k in ("arm", None) or (k == "match" and not any(x is child for x in hir.walk(a["e"]))):
+                    child = a
+                    continue
+                used = k
+                break
+            r.inst("right operand of %s" % "|".join(sorted(x.split("::")[1] for x in alts)), {"line": n.get("line"), "value_goes_to": used or "nowhere (statement)"})
+            if used is not None:
+                r.bad(bb.path, "divergence of the right operand of a short-circuit operator is used", relfile(bb.file), n.get("line") or bb.line,
+                      "the result of checking the right operand of `&&` / `||` flows into a %s: a `return` / `accept` / `reject` there marks the whole expression as diverging although "
+                      "the operand may be skipped - `fn f(c: bool) -> u32 { c && (return 1); }` is accepted and falls off its end" % used)
+    if found == 0:
+        r.missing("the check of the right operand in the And/Or group of TypeChecker::binop")
+    return r
+
+
 def rules(ctx):
     F = ctx["F"]
-    return [rule_e1(F), rule_e2(F), rule_e3(F), rule_e4(F), rule_e5(F), rule_e6(F), rule_e7(F), rule_e8(F), rule_e9(F), rule_e10(F), rule_e11(F), rule_e12(F), rule_e13(F), rule_e14(F)]
+    return [rule_e1(F), rule_e2(F), rule_e3(F), rule_e4(F), rule_e5(F), rule_e6(F), rule_e7(F), rule_e8(F), rule_e9(F), rule_e10(F), rule_e11(F), rule_e12(F), rule_e13(F), rule_e14(F), rule_e15(F)]
